@@ -161,33 +161,55 @@ theorem doBpop_tr (st : State) (c now : Nat) (inExec left : Bool) (args : List B
           refine h.trans ⟨Logs.of_eq rfl rfl, ?_⟩
           intro c' hc; simp [Dbs.updConn, hc]; exact ⟨rfl, rfl, rfl⟩
 
-theorem notify_tr (st : State) (c db : Nat) (k : Bytes) : Tr q (Disc w) c st (notify st db k) := by
-  unfold notify
-  split
-  · exact Tr.refl c st
-  · exact ⟨Logs.of_eq rfl rfl, Others.of_eq rfl⟩
-
-theorem serve_tr (c now : Nat) (wks : List Wake) :
-    ∀ (st : State) (out : List (Nat × Frame)), Tr q (Disc w) c st (serve q now st wks out).1 := by
-  induction wks with
-  | nil => intro st out; exact Tr.refl c st
-  | cons wk rest ih =>
-    intro st out
-    have h : Tr q (Disc w) c st (access q st { db := wk.db, sel := wk.db, conn := wk.conn, path := Path.served, now := now, cmd := popCmd wk.left wk.key, obs := none }).1 := Tr.access c st _ (Or.inl rfl)
-    simp only [serve]
-    split
-    · refine h.trans (Tr.trans ?_ (ih _ _))
-      exact ⟨Logs.of_eq rfl rfl, Others.unblock c wk.conn _ false⟩
-    · exact h.trans (ih _ _)
-
-theorem processWakes_tr (st : State) (c now : Nat) : Tr q (Disc w) c st (processWakes q now st).1 := by
-  unfold processWakes
-  exact Tr.trans ⟨Logs.of_eq rfl rfl, Others.of_eq rfl⟩ (serve_tr w q c now st.wakes _ _)
-
-theorem notifyN_tr (c db : Nat) (k : Bytes) (n : Nat) : ∀ (st : State), Tr q (Disc w) c st (notifyN n st db k) := by
-  induction n with
+theorem serveKey_tr (c now db : Nat) (k : Bytes) (f : Nat) : ∀ (st : State), Tr q (Disc w) c st (serveKey q now db k f st) := by
+  induction f with
   | zero => intro st; exact Tr.refl c st
-  | succ n ih => intro st; simp only [notifyN]; exact (notify_tr w q st c db k).trans (ih _)
+  | succ f ih =>
+    intro st
+    simp only [serveKey]
+    split
+    · exact Tr.refl c st
+    · rename_i x _
+      have h : Tr q (Disc w) c st (access q st { db := x.db, sel := x.db, conn := x.conn, path := Path.served, now := now, cmd := popCmd x.left k, obs := none }).1 :=
+        Tr.access c st _ (Or.inl rfl)
+      split
+      · refine h.trans (Tr.trans ?_ (ih _))
+        refine ⟨Logs.of_eq rfl rfl, ?_⟩
+        exact Others.unblock c x.conn _ false
+      · exact h
+
+theorem sweepKeys_tr (c now db : Nat) (ks : List Bytes) : ∀ (st : State), Tr q (Disc w) c st (sweepKeys q now db ks st) := by
+  induction ks with
+  | nil => intro st; exact Tr.refl c st
+  | cons k r ih => intro st; simp only [sweepKeys]; exact (serveKey_tr w q c now db k _ st).trans (ih _)
+
+theorem sweepDb_tr (c now db : Nat) (st : State) : Tr q (Disc w) c st (sweepDb q now db st) := by
+  unfold sweepDb; exact sweepKeys_tr w q c now db _ st
+
+theorem servePushed_tr (c now : Nat) (wks : List Wake) : ∀ (st : State), Tr q (Disc w) c st (servePushed q now wks st) := by
+  induction wks with
+  | nil => intro st; exact Tr.refl c st
+  | cons wk r ih =>
+    intro st
+    simp only [servePushed]
+    split
+    · exact (serveKey_tr w q c now wk.db _ _ st).trans (ih _)
+    · exact ih _
+
+theorem serveSwept_tr (c now : Nat) (wks : List Wake) : ∀ (st : State), Tr q (Disc w) c st (serveSwept q now wks st) := by
+  induction wks with
+  | nil => intro st; exact Tr.refl c st
+  | cons wk r ih =>
+    intro st
+    simp only [serveSwept]
+    split
+    · exact ih _
+    · exact (sweepDb_tr w q c now wk.db st).trans (ih _)
+
+theorem processWakes_tr (st : State) (c now : Nat) : Tr q (Disc w) c st (processWakes q now st) := by
+  unfold processWakes
+  exact Tr.trans (b := { st with wakes := [] }) ⟨Logs.of_eq rfl rfl, Others.of_eq rfl⟩
+    ((servePushed_tr w q c now st.wakes _).trans (serveSwept_tr w q c now st.wakes _))
 
 theorem doPush_tr (st : State) (c now : Nat) (path : Path) (cmd : List Bytes) :
     Tr q (Disc w) c st (doPush q st c now path cmd).1 := by
@@ -198,17 +220,24 @@ theorem doPush_tr (st : State) (c now : Nat) (path : Path) (cmd : List Bytes) :
   split
   · split
     · split
-      · exact h.trans (notifyN_tr w q c _ _ _ _)
-      · refine Tr.outbox _ ?_
-        exact h.trans ((notifyN_tr w q c _ _ _ _).trans (processWakes_tr w q _ c now))
+      · exact h.trans ⟨Logs.of_eq rfl rfl, Others.of_eq rfl⟩
+      · exact h.trans (serveKey_tr w q c now _ _ _ _)
     · exact h
   · exact h
+
+theorem afterSweep_tr (st : State) (c now db : Nat) (inExec : Bool) : Tr q (Disc w) c st (afterSweep q st now db inExec) := by
+  unfold afterSweep
+  split
+  · exact Tr.refl c st
+  · split
+    · exact ⟨Logs.of_eq rfl rfl, Others.of_eq rfl⟩
+    · exact sweepDb_tr w q c now db st
 
 theorem dispatch_tr (st : State) (c now : Nat) (inExec : Bool) (r : Req) :
     Tr q (Disc w) c st (dispatch w q st c now inExec r).1 := by
   unfold dispatch
   split
-  · exact runScript_tr w q c _ _ now _ st _
+  · exact (runScript_tr w q c _ _ now _ st _).trans (afterSweep_tr w q _ c now _ inExec)
   · exact Tr.refl c st
   · simp only []
     split
@@ -219,7 +248,11 @@ theorem dispatch_tr (st : State) (c now : Nat) (inExec : Bool) (r : Req) :
         · exact doBpop_tr w q st c now inExec false _
         · split
           · exact doPush_tr w q st c now _ _
-          · exact Tr.access c st _ (Or.inl rfl)
+          · split
+            · refine (Tr.access c st _ ?_).trans (afterSweep_tr w q _ c now _ inExec)
+              exact Or.inl rfl
+            · refine Tr.access c st _ ?_
+              exact Or.inl rfl
 
 theorem execQueue_tr (c now : Nat) (rs : List Req) :
     ∀ (st : State), Tr q (Disc w) c st (execQueue w q c now st rs).1 := by
@@ -380,18 +413,6 @@ theorem doBpop_B (st : State) (now : Nat) (inExec left : Bool) (args : List Byte
           · simp [Dbs.updConn]; exact ht.2.1
           · exact ht.2.2
 
-theorem notify_B (st : State) (k : Bytes) (h : Stay i c st) : TrB q i ns c st (notify st i k) := by
-  unfold notify
-  cases hf : firstWaiter st.waiting i k with
-  | none => exact TrB.refl h
-  | some x =>
-    refine ⟨Logs.of_eq rfl rfl, h.1, ?_⟩
-    intro wk hwk
-    simp only [List.mem_append, List.mem_singleton] at hwk
-    rcases hwk with hwk | hwk
-    · exact h.2 wk hwk
-    · rw [hwk]; exact firstWaiter_db hf
-
 theorem stay_updConn {st : State} (d : Nat) (f : Conn → Conn) (hf : ∀ x, (f x).db = x.db) (h : Stay i c st) : Stay i c (Dbs.updConn st d f) := by
   refine ⟨?_, h.2⟩
   simp only [Dbs.updConn]
@@ -399,33 +420,62 @@ theorem stay_updConn {st : State} (d : Nat) (f : Conn → Conn) (hf : ∀ x, (f 
   · simp [hcd, hf]; rw [← hcd]; exact h.1
   · simp [hcd]; exact h.1
 
-theorem serve_B (now : Nat) (wks : List Wake) :
-    ∀ (st : State) (out : List (Nat × Frame)), (∀ wk ∈ wks, wk.db = i) → Stay i c st → TrB q i ns c st (serve q now st wks out).1 := by
-  induction wks with
-  | nil => intro st out _ h; exact TrB.refl h
-  | cons wk rest ih =>
-    intro st out hw h
-    have hp : PB i ns { db := wk.db, sel := wk.db, conn := wk.conn, path := Path.served, now := now, cmd := popCmd wk.left wk.key, obs := none } :=
-      ⟨hw wk (by simp), popCmd_not_flushall _ _, fun _ b => by simp⟩
-    have ha := TrB.access (q := q) (c := c) _ h hp
-    have hw' : ∀ x ∈ rest, x.db = i := fun x hx => hw x (by simp [hx])
-    simp only [serve]
+theorem serveKey_B (now : Nat) (k : Bytes) (f : Nat) : ∀ (st : State), Stay i c st → TrB q i ns c st (serveKey q now i k f st) := by
+  induction f with
+  | zero => intro st h; exact TrB.refl h
+  | succ f ih =>
+    intro st h
+    simp only [serveKey]
     split
-    · refine ha.trans (fun h' => ?_)
-      have hs := stay_updConn i c wk.conn (fun x => { x with blocked := false }) (fun _ => rfl) h'
-      exact TrB.trans (b := Dbs.updConn _ wk.conn _) ⟨Logs.of_eq rfl rfl, hs⟩ (fun h'' => ih _ _ hw' h'')
-    · exact ha.trans (fun h' => ih _ _ hw' h')
+    · exact TrB.refl h
+    · rename_i x hx
+      have hp : PB i ns { db := x.db, sel := x.db, conn := x.conn, path := Path.served, now := now, cmd := popCmd x.left k, obs := none } :=
+        ⟨firstWaiter_db hx, popCmd_not_flushall _ _, fun _ b => by simp⟩
+      have ha := TrB.access (q := q) (c := c) _ h hp
+      split
+      · refine ha.trans (fun h' => ?_)
+        have hs := stay_updConn i c x.conn (fun y => { y with blocked := false }) (fun _ => rfl) h'
+        refine TrB.trans (b := { Dbs.updConn _ x.conn _ with waiting := _, outbox := _ }) ⟨Logs.of_eq rfl rfl, hs⟩ (fun h'' => ih _ h'')
+      · exact ha
 
-theorem processWakes_B (st : State) (now : Nat) (h : Stay i c st) : TrB q i ns c st (processWakes q now st).1 := by
+theorem sweepKeys_B (now : Nat) (ks : List Bytes) : ∀ (st : State), Stay i c st → TrB q i ns c st (sweepKeys q now i ks st) := by
+  induction ks with
+  | nil => intro st h; exact TrB.refl h
+  | cons k r ih => intro st h; simp only [sweepKeys]; exact (serveKey_B q i ns c now k _ st h).trans (fun h' => ih _ h')
+
+theorem sweepDb_B (now : Nat) (st : State) (h : Stay i c st) : TrB q i ns c st (sweepDb q now i st) := by
+  unfold sweepDb; exact sweepKeys_B q i ns c now _ st h
+
+theorem servePushed_B (now : Nat) (wks : List Wake) :
+    ∀ (st : State), (∀ wk ∈ wks, wk.db = i) → Stay i c st → TrB q i ns c st (servePushed q now wks st) := by
+  induction wks with
+  | nil => intro st _ h; exact TrB.refl h
+  | cons wk r ih =>
+    intro st hw h
+    have hw' : ∀ x ∈ r, x.db = i := fun x hx => hw x (by simp [hx])
+    have e : wk.db = i := hw wk (by simp)
+    simp only [servePushed]
+    split
+    · rw [e]; exact (serveKey_B q i ns c now _ _ st h).trans (fun h' => ih _ hw' h')
+    · exact ih _ hw' h
+
+theorem serveSwept_B (now : Nat) (wks : List Wake) :
+    ∀ (st : State), (∀ wk ∈ wks, wk.db = i) → Stay i c st → TrB q i ns c st (serveSwept q now wks st) := by
+  induction wks with
+  | nil => intro st _ h; exact TrB.refl h
+  | cons wk r ih =>
+    intro st hw h
+    have hw' : ∀ x ∈ r, x.db = i := fun x hx => hw x (by simp [hx])
+    have e : wk.db = i := hw wk (by simp)
+    simp only [serveSwept]
+    split
+    · exact ih _ hw' h
+    · rw [e]; exact (sweepDb_B q i ns c now st h).trans (fun h' => ih _ hw' h')
+
+theorem processWakes_B (st : State) (now : Nat) (h : Stay i c st) : TrB q i ns c st (processWakes q now st) := by
   unfold processWakes
   refine TrB.trans (b := { st with wakes := [] }) ⟨Logs.of_eq rfl rfl, h.1, by simp⟩ (fun h' => ?_)
-  exact serve_B q i ns c now st.wakes _ _ h.2 h'
-
-theorem notifyN_B (db : Nat) (hdb : db = i) (k : Bytes) (n : Nat) : ∀ (st : State), Stay i c st → TrB q i ns c st (notifyN n st db k) := by
-  subst hdb
-  induction n with
-  | zero => intro st h; exact TrB.refl h
-  | succ n ih => intro st h; simp only [notifyN]; exact (notify_B q db ns c st k h).trans (fun h' => ih _ h')
+  exact (servePushed_B q i ns c now st.wakes _ h.2 h').trans (fun h'' => serveSwept_B q i ns c now st.wakes _ h.2 h'')
 
 theorem doPush_B (st : State) (now : Nat) (path : Path) (hpath : ∀ b, path ≠ .script b) (cmd : List Bytes)
     (hn : nameOf cmd = "LPUSH" ∨ nameOf cmd = "RPUSH") (h : Stay i c st) :
@@ -437,13 +487,31 @@ theorem doPush_B (st : State) (now : Nat) (path : Path) (hpath : ∀ b, path ≠
   simp only []
   split
   · split
-    · refine ha.trans (fun h' => ?_)
-      split
-      · exact notifyN_B q i ns c _ h.1 _ _ _ h'
-      · refine TrB.outbox _ ?_
-        exact (notifyN_B q i ns c _ h.1 _ _ _ h').trans (fun h'' => processWakes_B q i ns c _ now h'')
+    · split
+      · refine ha.trans (fun h' => ⟨Logs.of_eq rfl rfl, h'.1, ?_⟩)
+        intro wk hwk
+        simp only [List.mem_append, List.mem_singleton] at hwk
+        rcases hwk with hwk | hwk
+        · exact h'.2 wk hwk
+        · rw [hwk]; exact h.1
+      · refine ha.trans (fun h' => ?_)
+        rw [h.1]
+        exact serveKey_B q i ns c now _ _ _ h'
     · exact ha
   · exact ha
+
+theorem afterSweep_B (st : State) (now : Nat) (inExec : Bool) (h : Stay i c st) : TrB q i ns c st (afterSweep q st now i inExec) := by
+  unfold afterSweep
+  split
+  · exact TrB.refl h
+  · split
+    · refine ⟨Logs.of_eq rfl rfl, h.1, ?_⟩
+      intro wk hwk
+      simp only [List.mem_append, List.mem_singleton] at hwk
+      rcases hwk with hwk | hwk
+      · exact h.2 wk hwk
+      · rw [hwk]
+    · exact sweepDb_B q i ns c now st h
 
 theorem dispatch_B (st : State) (now : Nat) (inExec : Bool) (r : Req) (hr : Clean ns r) (h : Stay i c st) :
     TrB q i ns c st (dispatch w q st c now inExec r).1 := by
@@ -454,7 +522,7 @@ theorem dispatch_B (st : State) (now : Nat) (inExec : Bool) (r : Req) (hr : Clea
   · rename_i sha cmds
     simp only [Clean] at hr
     rw [h.1]
-    exact runScript_B w q i ns c sha now hr.1 cmds hr.2 st _ h
+    exact (runScript_B w q i ns c sha now hr.1 cmds hr.2 st _ h).trans (fun h' => afterSweep_B q i ns c _ now inExec h')
   · exact TrB.refl h
   · rename_i n args obs
     simp only [Clean] at hr
@@ -467,7 +535,14 @@ theorem dispatch_B (st : State) (now : Nat) (inExec : Bool) (r : Req) (hr : Clea
         · exact doBpop_B q i ns c st now inExec false _ h
         · split
           · rename_i hp; exact doPush_B q i ns c st now _ hpath _ hp h
-          · exact TrB.access _ h ⟨h.1, isFlushAll_false_of_ne hr.2, fun _ => hpath⟩
+          · have hp : PB i ns { db := (st.conns c).db, sel := (st.conns c).db, conn := c, path := (if inExec then Path.exec else Path.direct), now := now, cmd := n :: args, obs := obs } :=
+              ⟨h.1, isFlushAll_false_of_ne hr.2, fun _ => hpath⟩
+            have ha := TrB.access (q := q) (c := c) _ h hp
+            split
+            · refine ha.trans (fun h' => ?_)
+              rw [h.1]
+              exact afterSweep_B q i ns c _ now inExec h'
+            · exact ha
 
 theorem execQueue_B (now : Nat) (rs : List Req) (hrs : ∀ r ∈ rs, Clean ns r) :
     ∀ (st : State), Stay i c st → TrB q i ns c st (execQueue w q c now st rs).1 := by
